@@ -80,23 +80,25 @@ def draw(m, meta, trials=500):
     if not problems:
         for pad, w, h, anim in [(ExactPadding(35, 0, 36, 0), 10, 4, False), (ExactPadding(35, 0, 36, 0), 10, 4, True), (ExactPadding(0, 14, 0, 14), 10, 4, False),
                                 (ExactPadding(0, 14, 0, 14), 10, 4, True), (AlignedPadding(81, 1), 10, 4, False), (ExactPadding(35, 0, 35, 0), 10, 4, False)]:
-            for check_size in (True, False):
-                for allow_scroll in (True, False):
+            for check_size, allow_scroll, animate in [(c_, a_, an_) for c_ in (True, False) for a_ in (True, False) for an_ in ((True, False) if anim else (True,))]:
+                if True:
                     pw, ph = pad.get_padded_size(Size(w, h))
-                    must = (anim or check_size) and (pw > 80 or ((anim or not allow_scroll) and ph > 30))
+                    # (an animated renderable drawn with animate=False is a non-animation: validated and scrolled like a still one)
+                    animation = anim and animate
+                    must = (animation or check_size) and (pw > 80 or ((animation or not allow_scroll) and ph > 30))
                     buf = io.StringIO()
                     old = sys.stdout
                     sys.stdout = buf
                     raised = False
                     try:
                         try:
-                            Foo(2 if anim else 1, Size(w, h)).draw(padding=pad, loops=1, check_size=check_size, allow_scroll=allow_scroll)
+                            Foo(2 if anim else 1, Size(w, h)).draw(padding=pad, loops=1, check_size=check_size, allow_scroll=allow_scroll, animate=animate)
                         except RenderSizeOutofRangeError:
                             raised = True
                     finally:
                         sys.stdout = old
                     if raised != must or (raised and buf.getvalue()):
-                        problems.append({"padding": repr(pad), "animated": anim, "check_size": check_size, "allow_scroll": allow_scroll, "padded_size": (pw, ph),
+                        problems.append({"padding": repr(pad), "animated": anim, "animate": animate, "check_size": check_size, "allow_scroll": allow_scroll, "padded_size": (pw, ph),
                                          "rejected": raised, "must_reject": must, "written_before_rejection": len(buf.getvalue())})
     return {"reproduced": bool(problems), "input": "seeded random draws (new API) on the concrete VT model + size-validation table", "observed": problems[:3]}
 
